@@ -216,8 +216,7 @@ Finish ==
   /\ st' = "done"
   /\ UNCHANGED <<cfg, stream, i, calls, nreq>>
 
-Next == Start \/ Step \/ Finish
-Spec == [][Next]_vars /\ WF_vars(Next)
+Next == Start \/ Step \/ Finish    \* (the initial states - the configurations - are chosen by OciListMC)
 
 \* ------------------------------------------------------------------------
 \* The properties, as operators over a configuration c, the consumer calls cs so far, the
@@ -237,9 +236,12 @@ AfterStartOf(c, cs) == LET ci == Items(cs) IN \A p \in 1..Len(ci) : c.kind # "re
 ErrorCauseOf(c, cs, s) == s = "failed" => /\ MayFail(c.node, c.kind) /\ cs[Len(cs)].e = "err"
                                           /\ \A p \in 1..Len(cs) - 1 : cs[p].e = "item"
 DeclinedAtKOf(c, cs, s) == s = "declined" => Len(cs) = c.k
-\* Every hop asks at most one page per item underneath plus one, per request of the hop above.
+\* Every hop asks at most one page per item underneath plus one, per request of the hop
+\* above (the power saturates: TLC integers are 32 bits).
+RECURSIVE SatPow(_, _)
+SatPow(b, e) == IF e = 0 THEN 1 ELSE LET q == SatPow(b, e - 1) IN IF q >= 1000000 THEN q ELSE b * q
 BoundedOf(c, nr, s) == /\ s # "diverged"
-                       /\ nr <= (Weight(c.node) + 2) ^ Hops(c.node) * 2 + 2
+                       /\ nr <= SatPow(Weight(c.node) + 2, Hops(c.node)) * 2 + 2
 
 PagingLossless == LosslessOf(cfg, calls, st)
 PrefixDelivered == PrefixOf(cfg, calls, st)
